@@ -694,13 +694,22 @@ def r14(ctx):
     Spelling, term order, named intermediates and log(1/x) = -log(x) do not matter; a tolerance added to alpha or to the quadratic form does."""
     base, f = kernel_form(ctx)
     pv, pred, mask, dist, env = kernel_names(f)
-    v = lambda k: f"{pv}[:, idx{k}, :]"
-    m = lambda k: f"{pred}[:, idx{k}, :]"
+    # the locals that hold member 1 / 2 / 3 of the sampled triples, whatever they are called
+    names = sorted({x.id for x in ast.walk(f.node) if isinstance(x, ast.Name)})
+    member = {}
+    for k_ in names:
+        r_ = triple_member(f, ast.Name(id=k_, ctx=ast.Load()))
+        if r_ is not None:
+            member.setdefault(r_, k_)
+    ctx.need(set(member) == {0, 1, 2}, f"{f.site()}: the three locals holding the members of the sampled triples were not found")
+    I = {k + 1: member[k] for k in range(3)}
+    v = lambda k: f"{pv}[:, {I[k]}, :]"
+    m = lambda k: f"{pred}[:, {I[k]}, :]"
     alpha = f"({v(1)} * {v(2)} + {v(2)} * {v(3)} + {v(1)} * {v(3)})"
     df = "distance_factor" if "distance_factor" in f.params else "1.0"
-    ref = (f"logsumexp(np.sum({mask}[:, idx1, :] * 0.5 * np.log(1.0 / {alpha}), axis=-1) + "
+    ref = (f"logsumexp(np.sum({mask}[:, {I[1]}, :] * 0.5 * np.log(1.0 / {alpha}), axis=-1) + "
            f"np.sum(-(0.5 * {v(1)} * {v(2)} * {v(3)} / np.square({alpha})) * ({v(3)} * np.square({m(1)} - {m(2)}) + {v(2)} * np.square({m(1)} - {m(3)}) "
-           f"+ {v(1)} * np.square({m(2)} - {m(3)})), axis=-1) + ({df} * np.log({dist}[idx1, idx2] + {dist}[idx2, idx3] + {dist}[idx1, idx3]))[np.newaxis, :], axis=1)")
+           f"+ {v(1)} * np.square({m(2)} - {m(3)})), axis=-1) + ({df} * np.log({dist}[{I[1]}, {I[2]}] + {dist}[{I[2]}, {I[3]}] + {dist}[{I[1]}, {I[3]}]))[np.newaxis, :], axis=1)")
     N = Norm(atomizer=kernel_atomizer((pv, pred, mask, dist), f, None), strict=True)
     want = N.n(parse_expr(ref))
     if base == want:
@@ -708,8 +717,7 @@ def r14(ctx):
         return
     # recognised wrong: a small numeric tolerance enters the score
     rets = returns(f.node)
-    keep = {"idx1", "idx2", "idx3"}
-    e = inline(rets[0].value, {k: x for k, x in single_defs(f.node).items() if k not in keep})
+    e = inline(rets[0].value, {k: x for k, x in single_defs(f.node).items() if k not in set(member.values())})
     eps = sorted({x.value for x in ast.walk(e) if isinstance(x, ast.Constant) and isinstance(x.value, float) and 0 < abs(x.value) < 1e-3})
     if eps:
         ctx.check("R14", f"{f.site()}::estimator", False, "",
